@@ -2,6 +2,7 @@
 
 spec/GroupLiveness.tla (+ MC_GroupLiveness, Trace_GroupLiveness); harness/server/x01/x01_verif_test.go
 """
+import json
 import os
 import random
 import re
@@ -71,7 +72,9 @@ def label_step(lab):
     if name == 'MCReportApply':
         return {'a': 'ReportApply', 'i': args[0], 'pref': args[1]}
     if name == 'MCWait':
-        return {'a': 'Wait', 'hb': args[0]}
+        return {'a': 'Wait', 'hb': args[0], 'park': args[1]}
+    if name == 'MCExpireApply':
+        return {'a': 'ExpireApply', 's': args[0], 'm': args[1]}
     if name == 'MCLose':
         return {'a': 'Lose'}
     if name == 'MCRestart':
@@ -103,7 +106,8 @@ def features(beh):
     pk = 'Open'
     for st in beh:
         body = st['body']
-        cur = {v: core.tlaval.state_var(body, v) for v in ('exists', 'members', 'coord', 'fo', 'pend', 'tmr')}
+        cur = {v: core.tlaval.state_var(body, v) for v in ('exists', 'members', 'coord', 'fo', 'pend', 'tmr',
+                                                            'pendx', 'gen', 'xgen')}
         a = st['last']
         if prev is not None and a and a.get('a') != 'Open':
             mem, coord = _set(prev['members']), prev['coord']
@@ -123,7 +127,10 @@ def features(beh):
                 f = (k, obs['err'], r['c'] != coord, r['m'] in mem, len(mem), len(wit & mem), moved)
             elif k == 'Wait':
                 modes = tuple(sorted(a['hb'][m] for m in mem))
-                f = (k, coord, modes, prev['fo']['on'], cur['exists'])
+                f = (k, coord, modes, prev['fo']['on'], cur['exists'], a['park'])
+            elif k == 'ExpireApply':
+                m = a['m']
+                f = (k, obs['err'], m in mem, prev['gen'][m] != prev['xgen'][m], coord, a['s'] == coord, len(mem))
             elif k == 'Join':
                 f = (k, obs['err'], a['srv'], prev['exists'], a['c0'], coord, len(mem), prev['fo']['on'])
             elif k == 'Leave':
@@ -177,10 +184,11 @@ def select(pool, budget, rng, per_feature=2):
     return chosen, covered, len(allf)
 
 
-def execute(behaviours, d, timeout=1500, workers=4):
-    stim = os.path.join(d, 'stim.json')
-    trace = os.path.join(d, 'trace.ndjson')
-    core.write_json(stim, {'behaviours': behaviours})
+def _go_run(behs, d, n, workers, timeout):
+    """one process of the harness; returns (rc, out, wall, complete trace lines, intents of the workers)"""
+    stim = os.path.join(d, 'stim-%d.json' % n)
+    trace = os.path.join(d, 'trace-%d.ndjson' % n)
+    core.write_json(stim, {'behaviours': behs})
     if os.environ.get('VERIF_KEEP'):
         core.log('stimuli at', stim)
     env = {'VERIF_STIMULI': stim, 'VERIF_TRACE_OUT': trace, 'VERIF_WORKERS': str(workers)}
@@ -197,24 +205,121 @@ def execute(behaviours, d, timeout=1500, workers=4):
     finally:
         if shm:
             shutil.rmtree(shm, ignore_errors=True)
-    if rc != 0 or not os.path.exists(trace):
-        raise core.Inconclusive('harness failed rc=%s: %s' % (rc, out[-3000:]))
-    m = re.search(r'VERIF-X01 behaviours=(\d+) dropped_for_timing=(\d+)', out)
+    lines = []
+    if os.path.exists(trace):
+        with open(trace) as fh:
+            for raw in fh:
+                if raw.endswith('\n') and raw.strip():
+                    try:
+                        lines.append(json.loads(raw))
+                    except ValueError:
+                        break
+    intents = []
+    for w in range(workers):
+        p = '%s.intent.%d' % (trace, w)
+        if os.path.exists(p):
+            try:
+                with open(p) as fh:
+                    intents.append(json.load(fh))
+            except ValueError:
+                pass
+    return rc, out, wall, lines, intents
+
+
+_panic_re = re.compile(r'^(panic: .*|fatal error: .*)$', re.M)
+
+
+def server_panic(out):
+    """the text of a panic raised in the server's own code (not in the harness), or None"""
+    m = _panic_re.search(out)
     if not m:
-        raise core.Inconclusive('harness did not report: %s' % out[-2000:])
-    dropped = int(m.group(2))
-    if dropped * 20 > int(m.group(1)):
-        raise core.Inconclusive('%d of %s behaviours could not be executed without timing interference'
-                                % (dropped, m.group(1)))
-    execute.dropped = dropped
-    execute.retries = sum(int(x) for x in re.findall(r'VERIF-X01-STAT retry n=(\d+)', out))
-    execute.wall = wall
+        return None
+    tail = out[m.start():]
+    frames = re.findall(r'^\s+(\S+\.go):(\d+)', tail, re.M)
+    first = next((f for f in frames if '/server/' in f[0] and not f[0].endswith('_test.go') and 'zz_' not in f[0]), None)
+    top = re.search(r'^(github\.com/liftbridge-io/liftbridge/server\.\S+)', tail, re.M)
+    if not first:
+        return None
+    if top and ('vX01' in top.group(1) or 'TestVerif' in top.group(1)):
+        return None
+    return '%s at %s:%s' % (m.group(1), os.path.basename(first[0]), first[1])
+
+
+def crash_lines(intent, what):
+    """the events recorded before the death plus the step in flight with the death as its observation"""
+    evs = list(intent.get('events') or [])
+    step = dict(intent['step'])
+    a = step.pop('a')
+    if a == 'Wait':
+        step['hb'] = {m: step.get('hb', {}).get(m, 'none') for m in MEMBERS}
+        step['park'] = bool(step.get('park'))
+    last = evs[-1]['st']
+    evs.append({'t': intent['t'], 'a': a, 'args': step, 'st': last,
+                'obs': {'a': a, 'err': '', 'fired': [], 'acc': [], 'rej': [], 'asg': [], 'crash': what}})
+    return evs
+
+
+def execute(behaviours, d, timeout=1500, workers=4):
+    """runs the behaviours on real clusters.  A panic in the server's code kills the process: the behaviours
+    that were in flight are then run again one by one in processes of their own, and the one that dies again
+    gets the death recorded as the observation of its step in flight (TLC judges it)."""
+    queue = [(list(behaviours), workers)]
+    out_lines, n, crashes = [], 0, 0
+    execute.dropped = execute.retries = 0
+    execute.wall = 0
+    execute.crashes = []
+    total = len(behaviours)
+    while queue:
+        behs, w = queue.pop(0)
+        if not behs:
+            continue
+        n += 1
+        rc, out, wall, lines, intents = _go_run(behs, d, n, min(w, len(behs)), timeout)
+        execute.wall += wall
+        done = {ln['t'] for ln in lines}
+        out_lines += lines
+        if rc == 0:
+            m = re.search(r'VERIF-X01 behaviours=(\d+) dropped_for_timing=(\d+)', out)
+            if not m:
+                raise core.Inconclusive('harness did not report: %s' % out[-2000:])
+            execute.dropped += int(m.group(2))
+            execute.retries += sum(int(x) for x in re.findall(r'VERIF-X01-STAT retry n=(\d+)', out))
+            continue
+        what = server_panic(out)
+        if not what:
+            raise core.Inconclusive('harness failed rc=%s: %s' % (rc, out[-3000:]))
+        rest = [b for b in behs if b['id'] not in done]
+        flying = [it for it in intents if it.get('t') not in done and it.get('events')]
+        ids = {it['t'] for it in flying}
+        if len(behs) == 1 or w == 1:
+            if len(flying) != 1:
+                raise core.Inconclusive('server died outside a recorded step (%s): %s' % (what, out[-2000:]))
+            crashes += 1
+            if crashes > 8:
+                raise core.Inconclusive('the server died in more than 8 behaviours (%s)' % what)
+            out_lines += crash_lines(flying[0], what)
+            execute.crashes.append({'behaviour': flying[0]['t'], 'what': what})
+            queue.insert(0, ([b for b in rest if b['id'] != flying[0]['t']], w))
+        else:
+            core.log('server died (%s); isolating behaviours %s' % (what, sorted(ids)))
+            for b in rest:
+                if b['id'] in ids:
+                    queue.append(([b], 1))
+            queue.insert(0, ([b for b in rest if b['id'] not in ids], w))
+    if execute.dropped * 20 > total:
+        raise core.Inconclusive('%d of %d behaviours could not be executed without timing interference'
+                                % (execute.dropped, total))
+    trace = os.path.join(d, 'trace.ndjson')
+    with open(trace, 'w') as fh:
+        for ln in out_lines:
+            fh.write(json.dumps(ln) + '\n')
     return trace
 
 
 execute.dropped = 0
 execute.retries = 0
 execute.wall = 0
+execute.crashes = []
 
 
 def step_class(lines, line):
@@ -236,6 +341,20 @@ def step_class(lines, line):
         return 'at-coordinator' if a['s'] == st['coord'] else 'at-other-server'
     if ev['a'] == 'Wait':
         return 'coord=' + st['coord']
+    if ev['a'] == 'ExpireApply':
+        # did the consumer leave and join again after the timer fired?
+        k = line - 1
+        joined = False
+        while k >= 1 and lines[k]['t'] == ev['t']:
+            e2 = lines[k]
+            if e2['a'] == 'Wait' and e2['args'].get('park') and [a['s'], a['m']] in e2['obs']['fired']:
+                break
+            if e2['a'] == 'Join' and e2['args']['m'] == a['m'] and e2['obs']['err'] == '':
+                joined = True
+            k -= 1
+        if a['m'] not in st['members']:
+            return 'gone'
+        return 'rejoined' if joined else 'same-membership'
     return '-'
 
 
@@ -278,7 +397,7 @@ def variant(rep, cfg, what, workers=1):
     return cx
 
 
-ALL_GOOD = {'a': 'Wait', 'hb': {m: 'good' for m in MEMBERS}}
+ALL_GOOD = {'a': 'Wait', 'hb': {m: 'good' for m in MEMBERS}, 'park': False}
 
 
 def run(rep, tier, seed, replay):
@@ -307,7 +426,9 @@ def run(rep, tier, seed, replay):
     directed = []
     for cfg, what in (('MC_GroupLiveness_keeptimers.cfg', 'timers kept at the old coordinator'),
                       ('MC_GroupLiveness_countall.cfg', 'witnesses that left the group counted'),
-                      ('MC_GroupLiveness_race_norecheck.cfg', 'overtaken report not re-checked')):
+                      ('MC_GroupLiveness_race_norecheck.cfg', 'overtaken report not re-checked'),
+                      ('MC_GroupLiveness_retryblind.cfg', 'failed expiry proposal re-arms the timer of a consumer that left'),
+                      ('MC_GroupLiveness_expire_taint.cfg', 'known finding: an expiry in flight ends a later membership')):
         cx = variant(rep, cfg, what)
         directed.append(cx)
         directed.append(cx + [ALL_GOOD])
@@ -352,6 +473,7 @@ def run(rep, tier, seed, replay):
     rep.cov['behaviours_step_sequences'] = len(pathb)
     rep.cov['behaviours_simulated_selected'] = len(simb)
     rep.cov['harness_wall_s'] = round(execute.wall, 1)
+    rep.cov['server_deaths_observed'] = execute.crashes
 
     def nontrivial(b):
         ks = [s['a'] for s in b['steps']]
@@ -360,7 +482,8 @@ def run(rep, tier, seed, replay):
     rep.cov['distinct_nontrivial'] = len({core.sha(b['steps']) for b in behaviours if nontrivial(b)})
     rep.cov['exhaustive'] = False
     rep.cov['rule'] = ('behaviours = (a) counterexamples of defective model variants (timers kept at the old '
-                       'coordinator, departed witnesses counted, overtaken report not re-checked), each also followed '
+                       'coordinator, departed witnesses counted, overtaken report not re-checked, blind re-arming after a failed '
+                       'expiry proposal, an expiry in flight meeting a later membership), each also followed '
                        'by a period of correct heartbeats; (b) sequences of <= %d effective steps (MC_GroupLiveness_paths, '
                        'history in the view; %d of %d replayed), each ending with a period of correct heartbeats; (c) '
                        'from a pool of %d simulated behaviours those that cover the situation features (who reports / '
